@@ -6,12 +6,15 @@ Case lines:
   pol cf <dir> [drop+]<spec>       creator_file answer for /c20/<dir>/...; `drop+`: the master first calls back into the
                                    creating object - when that is the master itself - and makes it seteuid(0)
   pol vs <oid|*> <uid|*|-> <spec>  valid_seteuid answer (`-` = empty uid)
+  pol vb <doer|*> <new owner|*> <spec>   valid_bind answer
+  pol root <name> / pol bb <name>  get_root_uid() / get_bb_uid() answer this from now on (matters at a master reload)
   pol co <dir> none|i:<n>|err|t:<template path>|-   compile_object answer for /c20/<dir>/... (`-` = no policy)
   script <name> <op>;<op>..|-      ops run by create() of the object with that file name (<path> / <path>#)
   do <oid> <op>                    op: seteuid,s:<name> | seteuid,i:<n> | export,<oid> | load,<path> |
-                                       clone,<newoid>,<path> | dest,<oid> | reload,<oid>
+                                       clone,<newoid>,<path> | dest,<oid> | reload,<oid> | via,<owner>,<op> |
+                                       bind,<new owner>,<load..|clone..>
   spec: s:<text> | i:<n> | arr | err | none
-Trace lines:  do / vs / co / cf / new / r / q / crash
+Trace lines:  do / vs / vb / co / cf / new / r / q / crash
 -/
 import NV.Common.Proto
 import NV.C20.Model
@@ -36,6 +39,7 @@ def Ans.render : Ans → String
 
 def Op.render : Op → String
   | .via t op => "via," ++ t ++ "," ++ op.render
+  | .bind t op => "bind," ++ t ++ "," ++ op.render
   | .seteuidStr s => "seteuid,s:" ++ s
   | .seteuidInt n => "seteuid,i:" ++ toString n
   | .exportUid t => "export," ++ t
@@ -51,6 +55,7 @@ def Err.render : Err → String
   | .badArg => "*Bad_argument"
   | .policy => "*policy_error"
   | .simulDest => "*Cannot_destruct_simul_efun_object_while_master_object_exists."
+  | .bindDenied => "Permission_of_binding_denied_by_master_object."
 
 def Res.render : Res → String
   | .int n => toString n
@@ -101,8 +106,11 @@ def StepRec.render (r : StepRec) : List String :=
   let col := match r.co with
     | some (n, a) => ["co " ++ n ++ " " ++ a.render]
     | none => []
+  let vbl := match r.vb with
+    | some (d, n, a) => ["vb " ++ d ++ " " ++ n ++ " " ++ a.render]
+    | none => []
   let (cl, crashed) := renderCreations r.creations
-  let vsl := vsl ++ col
+  let vsl := vsl ++ vbl ++ col
   if crashed then head ++ vsl ++ cl
   else
     let rl := match r.res with
@@ -140,6 +148,7 @@ def parseCo (s : String) : Option CoAns :=
 partial def parseOp (s : String) : Option Op :=
   match s.splitOn "," with
   | "via" :: t :: rest => (parseOp (",".intercalate rest)).map (.via t)
+  | "bind" :: t :: rest => (parseOp (",".intercalate rest)).map (.bind t)
   | ["seteuid", a] =>
     if a.startsWith "s:" then some (.seteuidStr (a.drop 2).toString)
     else if a.startsWith "i:" then (a.drop 2).toString.toInt?.map .seteuidInt
@@ -155,6 +164,9 @@ structure Tables where
   cf : List (String × Ans) :=
     [("u1", .str "u1"), ("u2", .str "u2"), ("bb", .str "Backbone"), ("root", .str "Root"), ("odd", .int 0)]
   vs : List (String × Ans) := []
+  vb : List (String × Ans) := []
+  /-- `pol root <name>`: what get_root_uid() answers from now on -/
+  root : Option Name := none
   /-- directories whose creator_file answer is preceded by the master's callback into itself (`drop+<spec>`) -/
   cfd : List (String × Bool) := []
   scripts : List (String × List Op) := []
@@ -203,6 +215,17 @@ def applyCfgFlag (c : Cfg) (f : String) : Option Cfg :=
 def parseCfgFlags (fs : List String) : Option Cfg :=
   fs.foldl (fun c f => c.bind (applyCfgFlag · f)) (some driveCfg)
 
+def Tables.vbAns (t : Tables) (d : Oid) (n : Oid) : Ans :=
+  match lookupS t.vb (d ++ ":" ++ n) with
+  | some a => a
+  | none =>
+    match lookupS t.vb (d ++ ":*") with
+    | some a => a
+    | none =>
+      match lookupS t.vb ("*:" ++ n) with
+      | some a => a
+      | none => (lookupS t.vb "*:*").getD (.int 1)
+
 structure Parsed where
   cfg : Cfg := driveCfg
   tab : Tables := {}
@@ -237,6 +260,12 @@ def parseLine (p : Parsed) (line : String) : Parsed :=
     match parseAns spec with
     | some a => { p with tab := { p.tab with cf := (d, a) :: p.tab.cf, cfd := (d, drop) :: p.tab.cfd } }
     | none => { p with bad := line :: p.bad }
+  | ["pol", "root", n] => { p with tab := { p.tab with root := some n } }
+  | ["pol", "bb", _] => p        -- get_bb_uid() answers something else from now on: set_master ignores it after the first load
+  | ["pol", "vb", d, n, spec] =>
+    match parseAns spec with
+    | some a => { p with tab := { p.tab with vb := (d ++ ":" ++ n, a) :: p.tab.vb } }
+    | none => { p with bad := line :: p.bad }
   | ["pol", "vs", o, u, spec] =>
     match parseAns spec with
     | some a => { p with tab := { p.tab with vs := (o ++ ":" ++ (if u == "-" then "" else u), a) :: p.tab.vs } }
@@ -268,7 +297,13 @@ def policyOf (steps : List ((Oid × Op) × Tables)) : Policy :=
       | none => .silent,
     cfDrop := fun i name => match arr[i]? with
       | some e => e.2.cfDrop name
-      | none => false }
+      | none => false,
+    vb := fun i d n => match arr[i]? with
+      | some e => e.2.vbAns d n
+      | none => .int 1,
+    root := fun i => match arr[i]? with
+      | some e => e.2.root
+      | none => none }
 
 def runModel (lines : List String) : List String :=
   let p := parseCase lines
@@ -290,7 +325,7 @@ def parseRes (ws : List String) : Option Res :=
   match ws with
   | ["nobj"] => some .nobj
   | ["err", e] =>
-    ([Err.noEuidLoad, .noEuidClone, .exportZero, .badArg, .policy, .simulDest].find? (fun x => x.render == e)).map .err
+    ([Err.noEuidLoad, .noEuidClone, .exportZero, .badArg, .policy, .simulDest, .bindDenied].find? (fun x => x.render == e)).map .err
   | [x] =>
     match x.toInt? with
     | some n => some (.int n)
@@ -345,13 +380,20 @@ def jline (j : JParse) (line : String) : JParse :=
   | [] => j
   | ["do", o, ops] =>
     match parseOp ops, j.cur with
-    | some op, none => { j with stack := (o, op) :: j.stack, cur := some { actor := o, op := op } }
+    | some op, none =>
+      -- a bind() announces in its first segment as whom the function is going to run
+      let bt := match op with
+        | .bind t _ => some t
+        | _ => none
+      { j with stack := (o, op) :: j.stack, cur := some { actor := o, op := op, bindTo := bt } }
     | _, _ => { j with bad := line :: j.bad }
   | ["vs", o, u, spec] =>
     j.upd line fun r =>
       match parseU u, parseAns spec with
       | some (some u), some a => if r.vs.isNone then some { r with vs := some (o, u, a) } else none
       | _, _ => none
+  | ["vb", d, n, spec] =>
+    j.upd line fun r => if r.vb.isSome then none else (parseAns spec).map fun a => { r with vb := some (d, n, a) }
   | ["co", name, spec] =>
     j.upd line fun r => if r.co.isSome then none else (parseCo spec).map fun a => { r with co := some (name, a) }
   | ["cf", name, spec] =>
